@@ -50,6 +50,7 @@ def keep (e : Ev) (s : State) : Bool :=
       && (fk.cur == some box || fk.pc == .ret box || fk.pc == .retExc)
   | .nset => s.linked == arg e 0 + 2 && arg e 1 + 1 == s.boxes && arg e 1 == arg e 0 + 1
   | .inc => s.cnt (arg e 0) == arg e 1 && fk.cur == some (arg e 0)
+  | .ncmp => s.cnt (arg e 0) == arg e 1 && fk.cur == some (arg e 0)
   | .bacq => fk.cur == some (arg e 0)
   | .brel => fk.cur == some (arg e 0)
   | .recv => fk.out.getLast? == some (arg e 0)
@@ -61,7 +62,7 @@ def parseKind (name : String) (args : List Nat) : Option Kind :=
   | "acq" => some (if args.getD 0 0 == 1 then .acqOk else .acqFail)
   | "rel" => some .rel | "pull" => some .pull | "srcEnd" => some .srcEnd | "srcExc" => some .srcExc
   | "put" => some .put | "get" => some .get | "hset" => some .hset | "nget" => some .nget
-  | "nset" => some .nset | "bacq" => some .bacq | "brel" => some .brel | "inc" => some .inc
+  | "nset" => some .nset | "bacq" => some .bacq | "brel" => some .brel | "inc" => some .inc | "ncmp" => some .ncmp
   | "recv" => some .recv | "stop" => some .stop | "exc" => some .exc
   | _ => none
 
